@@ -561,7 +561,7 @@ where
 
     /// Refuse a send before it reaches its handler: like every other refusal, the identifier
     /// obtained for the packet is released and the release is announced
-    fn refuse_send(
+    pub(crate) fn refuse_send(
         &mut self,
         error: MqttError,
         packet_id: Option<PacketIdType>,
